@@ -19,7 +19,8 @@ Inductive raction :=
 | AIgnore                   (* ignore_* string rule *)
 | ANewline.                 (* ignore_newline: self.lineno += len(t.value); returns None *)
 
-Record rule := mkRule { r_type : positive; r_re : re; r_act : raction }.
+(* r_nl: the token function also does  self.lineno += t.value.count('\n') *)
+Record rule := mkRule { r_type : positive; r_re : re; r_act : raction; r_nl : bool }.
 
 Record ltoken := mkLT {
   lt_type : positive; lt_value : str; lt_lexeme : str; lt_index : N; lt_end : N; lt_line : N }.
@@ -83,12 +84,13 @@ Fixpoint lex_loop (fuel : nat) (prev : option N) (s : str) (idx line : N) (acc :
         | inl (Some (r, lexeme, rest)) =>
           let n := N.of_nat (length lexeme) in
           let p' := last_char prev lexeme in
+          let line' := if r_nl r then line + N.of_nat (length (filter (N.eqb cNL) lexeme)) else line in
           match r_act r with
-          | AIgnore => lex_loop f p' rest (idx + n) line acc
-          | ANewline => lex_loop f p' rest (idx + n) (line + n) acc
-          | ATok => lex_loop f p' rest (idx + n) line
+          | AIgnore => lex_loop f p' rest (idx + n) line' acc
+          | ANewline => lex_loop f p' rest (idx + n) (line' + n) acc
+          | ATok => lex_loop f p' rest (idx + n) line'
                              (mkLT (r_type r) lexeme lexeme idx (idx + n) line :: acc)
-          | ARewrite ops => lex_loop f p' rest (idx + n) line
+          | ARewrite ops => lex_loop f p' rest (idx + n) line'
                              (mkLT (r_type r) (apply_ops ops lexeme) lexeme idx (idx + n) line :: acc)
           end
         end
